@@ -254,6 +254,13 @@ def r7_dequeue(tree, rep, rule="C09.R7"):
 
 
 def run(tree, rep, tier):
+    from .. import round9 as _r9
+    _r9.handlers_tolerate_replay(tree, rep, "C09.R9")
+    from ..effects import writer_table as _wt
+    _wt(tree, rep, "C09.R10", "RendezvousConnector", "_ws", {("__attrs_post_init__", "assign"), ("ws_open", "assign"), ("ws_close", "assign")},
+        "ws_close decides from self._ws whether the machines must hear lost(); a further place that clears (or sets) it - a forced reconnect, an "
+        "early hang-up - makes ws_close skip the `lost` inputs: Nameplate/Mailbox stay in their connected halves, the next connected() is a "
+        "NoTransition and the session that should have resumed ends with an internal error")
     r7_dequeue(tree, rep)
     from .. import payload
     payload.check(tree, rep, "C09.R8", "never delivered to the peer (and blocks every later message behind it)")
